@@ -27,3 +27,48 @@ pub fn sqrt_oracle<F: ff::PrimeField, S: AsRef<[u64]>>(f: &F, _tm1d2: S) -> subt
     let root: F = unsafe { core::mem::transmute_copy(&out) };
     subtle::CtOption::new(root, subtle::Choice::from(ans as u8))
 }
+
+// ---------------------------------------------------------------------------------------------
+// Jubjub scalar multiplication / doubling as recording oracles (Rust-level stubs, Kani only).
+use midnight_curves::JubjubExtended;
+
+pub fn jj_limbs(p: &JubjubExtended) -> [u64; 20] {
+    let c = p.verif_coords();
+    let mut o = [0u64; 20];
+    let mut i = 0;
+    while i < 5 {
+        let l = blst::blst_fr::from(c[i]).l;
+        let mut j = 0;
+        while j < 4 {
+            o[4 * i + j] = l[j];
+            j += 1;
+        }
+        i += 1;
+    }
+    o
+}
+pub fn jj_from_limbs(l: &[u64; 20]) -> JubjubExtended {
+    let f = |i: usize| midnight_curves::Fq::from(blst::blst_fr { l: [l[4 * i], l[4 * i + 1], l[4 * i + 2], l[4 * i + 3]] });
+    JubjubExtended::verif_from_coords([f(0), f(1), f(2), f(3), f(4)])
+}
+
+/// log of `JubjubExtended::multiply` (the 252-step double-and-add): argument point, scalar bytes, answer
+pub static mut JJ_MUL: crate::ffi::Log<20, 1, 2> = crate::ffi::Log::new();
+pub static mut JJ_MUL_BY: [u8; 32] = [0; 32];
+/// replaces the private `JubjubExtended::multiply(self, by)`: answers an ARBITRARY extended point (all 20 limbs free)
+pub fn jj_multiply_oracle(p: JubjubExtended, by: &[u8; 32]) -> JubjubExtended {
+    let out: [u64; 20] = crate::vk::any();
+    unsafe {
+        JJ_MUL.rec([jj_limbs(&p)], out, false);
+        JJ_MUL_BY = *by;
+    }
+    jj_from_limbs(&out)
+}
+
+/// log of `JubjubExtended::double`
+pub static mut JJ_DBL: crate::ffi::Log<20, 1, 2> = crate::ffi::Log::new();
+pub fn jj_double_oracle(p: &JubjubExtended) -> JubjubExtended {
+    let out: [u64; 20] = crate::vk::any();
+    unsafe { JJ_DBL.rec([jj_limbs(p)], out, false) };
+    jj_from_limbs(&out)
+}
